@@ -150,6 +150,10 @@ func blsSummary(fr *frame, fn *ssa.Function, name string, args []value) (value, 
 		if len(buf) != 96 {
 			return mkError(fr, "err blsSignatureDeserialize"), true
 		}
+		// 0xFF in the first byte models bytes that are not a valid curve point
+		if decideV(byteEq(buf[0], byte(0xFF))) {
+			return mkError(fr, "err blsSignatureDeserialize"), true
+		}
 		blsSet(args[0].(*value), buf)
 		return iface{}, true
 	case isSign && meth == "Serialize":
